@@ -70,9 +70,13 @@ func (c Cipher) Encrypt(key []byte, data []byte) (encrypted []byte, err error) {
 // Decrypt AES GCM data with key
 func (c Cipher) Decrypt(key []byte, data []byte) (decrypted []byte, err error) {
 	var (
-		ckey       = NewCipherKey(data[:4])
+		ckey       CipherKey
 		fileCipher cipherfs.Cipher
 	)
+	if len(data) < 4 {
+		return nil, goaterr.Errorf("encrypted data is too short (%d bytes) to contain cipher key", len(data))
+	}
+	ckey = NewCipherKey(data[:4])
 	if fileCipher = c.mapping[ckey]; fileCipher == nil {
 		return nil, goaterr.Errorf("Unknow cipher for %v key", ckey)
 	}
